@@ -24,10 +24,10 @@ CONCRETE = {"unframeable": ["random-unframeable", "random-typed", "random-header
             "forged": ["forged-protected", "bitflip-protected"],
             "future": ["future-epoch"],
             "replay": ["replay"],
-            "cleartext": ["hsfrag", "hs-nextseq", "plain-alert", "plain-ccs", "plain-app", "plain-ack", "typever"],
+            "cleartext": ["hsfrag", "hs-nextseq", "plain-alert", "plain-ccs", "plain-app", "plain-ack", "typever", "plain-benign"],
             "authmalformed": ["auth-malformed", "cbc-padding"]}
 MUST_SERVE = {"random-unframeable", "random-typed", "random-header", "trunc", "lenfield", "badtype", "forged-protected",
-              "bitflip-protected", "replay", "future-epoch"}
+              "bitflip-protected", "replay", "future-epoch", "plain-benign"}
 SCENS = {
     "12": dict(ver="12", helloVerify=True, **NOCID),
     "12cbc": dict(ver="12", helloVerify=False, suite="TLS_ECDHE_ECDSA_WITH_AES_256_CBC_SHA", **NOCID),
